@@ -244,6 +244,10 @@ def tr_e(c, e):
         return (szname(e[1][1][1]), 'N')
     if k == 'call':
         name = callee_name(e[1])
+        if c.havoc:
+            # a default argument the caller did not write: a constant of the callee, which is an uninterpreted function of the
+            # explicit arguments anyway
+            e = (e[0], e[1], [a for a in e[2] if a != ('opaque', 'defaultarg')])
         args = [('0', 'N') if (c.havoc and a[0] == 'var' and a[1] in c.opaque) else tr_e(c, a) for a in e[2]]
         rty = c.extern_types.get(name, 'N')
         if c.havoc and any(a[0] in ('refarg', 'var') and a[1] in c.opaque for a in e[2]):
@@ -398,6 +402,8 @@ def is_cleanup(e):
         f = e[1]
         if f[0] == 'field' and f[2].split('::')[-1].startswith('recycle'):
             return True
+        if f[0] == 'field' and f[2].split('::')[-1] in ('destroyObject', 'abortTransaction') and f[1][0] == 'var' and not e[2]:
+            return True      # undoing a half-made object on an error path: its result is ignored and nothing reads the object again
         if f[0] == 'var' and f[1] == 'delete':
             return True
     return False
@@ -417,6 +423,34 @@ def writes_only_opaque(c, e):
     if e[0] == 'bin' and e[1] in ('=', 'op=', '+=', 'op+=') and e[2][0] == 'var' and e[2][1] in c.opaque:
         return not mentions(e[3], lambda x: x[0] == 'refarg')
     return False
+
+
+def addr_out_call(c, s):
+    """`rv = f(a, &x)`, `T rv = f(a, &x)` or `f(a, &x)` with x a scalar local: f may write x through the pointer.  The call is
+    translated with 0 in the place of &x under a name of its own (per call site), and x is a fresh universally quantified
+    value afterwards.  -> (target or None, call with the &x arguments replaced, [x ...]) or None"""
+    target = None
+    if s[0] == 'expr':
+        e = s[1]
+        if e[0] == 'bin' and e[1] == '=' and e[2][0] == 'var' and e[2][1] in c.types:
+            target, call = e[2][1], e[3]
+        else:
+            call = e
+    else:
+        if s[3] is None or is_opaque_type(s[2]):
+            return None
+        target, call = s[1], s[3]
+    if call is None or call[0] != 'call':
+        return None
+    outs = [a[2][1] for a in call[2] if a[0] == 'un' and a[1] == '&' and a[2][0] == 'var' and a[2][1] in c.types]
+    if not outs or any(a[0] == 'refarg' and a[1] not in c.opaque for a in call[2]):
+        return None
+    if s[0] == 'decl':
+        c.types[target] = 'bool' if s[2] in BOOL_TYPES else 'N'
+    c.fresh += 1
+    site = ('var', '%s_at%d' % (callee_name(call[1]), c.fresh))
+    newcall = ('call', site, [('int', 0) if (a[0] == 'un' and a[1] == '&' and a[2][0] == 'var' and a[2][1] in c.types) else a for a in call[2]])
+    return (target, newcall, outs)
 
 
 def havoc_scalar(c, s):
@@ -606,6 +640,24 @@ def tr_s_inner(c, ss, k_fall, k_break):
         c.written_derefs.add(s[1][2][2][1])
         return tr_s(c, rest, k_fall, k_break)
     if c.havoc and k in ('expr', 'decl'):
+        ao = addr_out_call(c, s)
+        if ao is not None:
+            (target, call, outs) = ao
+            binds = []
+            if target is not None:
+                v, ty = tr_e(c, call)
+                if target not in c.types:
+                    c.types[target] = ty
+                binds.append((ident(target), v if ty == c.types[target] else (as_bool(c, call) if c.types[target] == 'bool' else as_N(c, call))))
+            else:
+                tr_e(c, call)          # the result is ignored; the call must still be expressible
+            c.fresh += 1
+            for x in outs:
+                pn = 'hv%d_%s' % (c.fresh, ident(x))
+                c.extern(pn, c.types[x])
+                binds.append((ident(x), pn))
+            inner = tr_s(c, rest, k_fall, k_break)
+            return ''.join('(let %s := %s in ' % b for b in binds) + inner + ')' * len(binds)
         hs = havoc_scalar(c, s)
         if hs is not None:
             return '(let %s := %s in %s)' % (hs[0], hs[1], tr_s(c, rest, k_fall, k_break))
